@@ -7,6 +7,7 @@ import (
 	"time"
 
 	kv "github.com/XiXi-2024/xixi-kv"
+	"github.com/cespare/xxhash"
 	"verif/harness/core"
 	"verif/harness/mon"
 )
@@ -64,6 +65,14 @@ func (c05) Run(c core.Case, w *core.Worker) core.Result {
 	reuse := c.Index%2 == 1 // the caller recycles one key buffer and one value buffer for every Batch call
 	if reuse {
 		res.Add("cases_reusing_buffers", 1)
+	}
+	if c.Index%4 == 2 {
+		// two distinct 16-byte keys with the same xxhash64 (the batch's staging index and the
+		// sharded index are keyed by that hash): constructed, verified with the real hash
+		if a, b, ok := collidingKeys(r); ok {
+			keys = append(keys, a, b)
+			res.Add("cases_with_hash_colliding_keys", 1)
+		}
 	}
 	never := [][]byte{[]byte("~never1"), []byte("~never2")}
 	g := &core.Gen{R: r, Keys: keys, Cfg: sc.Cfg, NoMerge: true, NoRestart: true, EndOff: io.ActiveEnd, MaxVal: int(sc.Cfg.DataFileSize) / 2}
@@ -307,4 +316,55 @@ func runC05Batch(s *core.Session, res *core.Result, r *core.Rng, g *core.Gen, ke
 		return
 	}
 	s.CheckDump("after-commit")
+}
+
+// ---------------------------------------------------------------------------
+// xxhash64 collisions for 16-byte inputs (seed 0). For inputs shorter than 32 bytes XXH64 is
+//
+//	h = P5 + len; for each 8-byte word w: h = rotl(h ^ round(w), 27)*P1 + P4; h = avalanche(h)
+//
+// with round(w) = rotl(w*P2, 31)*P1. Every step is a bijection on 64 bits, so for arbitrary
+// first words w1 != w1' and second word w2, solving round(w2') = h1 ^ h1' ^ round(w2) for w2'
+// yields two different keys with equal hash.
+const (
+	xxP1 = 11400714785074694791
+	xxP2 = 14029467366897019727
+	xxP4 = 9650029242287828579
+	xxP5 = 2870177450012600261
+)
+
+func rotl(x uint64, r uint) uint64 { return x<<r | x>>(64-r) }
+func rotr(x uint64, r uint) uint64 { return x>>r | x<<(64-r) }
+func inv64(a uint64) uint64 {
+	x := a // a is odd
+	for i := 0; i < 6; i++ {
+		x *= 2 - a*x
+	}
+	return x
+}
+func xxRound(w uint64) uint64    { return rotl(w*xxP2, 31) * xxP1 }
+func xxRoundInv(v uint64) uint64 { return rotr(v*inv64(xxP1), 31) * inv64(xxP2) }
+
+func collidingKeys(r *core.Rng) ([]byte, []byte, bool) {
+	le := func(b []byte, w uint64) {
+		for i := 0; i < 8; i++ {
+			b[i] = byte(w >> (8 * i))
+		}
+	}
+	for try := 0; try < 8; try++ {
+		w1, w1b, w2 := r.U64(), r.U64(), r.U64()
+		h0 := uint64(xxP5 + 16)
+		h1 := rotl(h0^xxRound(w1), 27)*xxP1 + xxP4
+		h1b := rotl(h0^xxRound(w1b), 27)*xxP1 + xxP4
+		w2b := xxRoundInv(h1 ^ h1b ^ xxRound(w2))
+		a, b := make([]byte, 16), make([]byte, 16)
+		le(a, w1)
+		le(a[8:], w2)
+		le(b, w1b)
+		le(b[8:], w2b)
+		if string(a) != string(b) && xxhash.Sum64(a) == xxhash.Sum64(b) {
+			return a, b, true
+		}
+	}
+	return nil, nil, false
 }
